@@ -1,9 +1,13 @@
 #!/bin/sh
-# build the extracted model + driver: ocaml/_build/svdriver
+# ocaml/build.sh c24  ->  ocaml/_build/c24/svdriver  (extracted coq/c24_model.ml + conv.ml + d_c24.ml)
 set -e
+p="$1"
 cd "$(dirname "$0")"
-mkdir -p _build
-cp ../coq/svmodel.ml ../coq/svmodel.mli conv.ml driver.ml _build/
-cd _build
+mkdir -p _build/$p
+cp ../coq/${p}_model.ml _build/$p/svmodel.ml
+cp ../coq/${p}_model.mli _build/$p/svmodel.mli
+cp conv.ml _build/$p/conv.ml
+cp d_$p.ml _build/$p/driver.ml
+cd _build/$p
 ocamlfind ocamlopt -O2 -package zarith -linkpkg -w -a svmodel.mli svmodel.ml conv.ml driver.ml -o svdriver 2>/dev/null || \
 ocamlfind ocamlopt -package zarith -linkpkg -w -a svmodel.mli svmodel.ml conv.ml driver.ml -o svdriver
